@@ -149,5 +149,25 @@ func c08l9GenTrailers() (string, error) {
 	s += fmt.Sprintf("def srvTrailerObjWhenEnded : Bool := %v\n", objWhenEnded)
 	s += "/-- serverStreamConnection.handleFrame: `stream.trailer.H = …` is guarded by a nil test of stream.trailer -/\n"
 	s += fmt.Sprintf("def srvTrailerDerefGuarded : Bool := %v\n", guarded > 0)
+	// [c01h10] MServerConn.processHeaders, new stream: `if req.Trailer == nil && !f.StreamEnded() { req.Trailer = make(http.Header) }`
+	// in front of `st.reqTrailer = req.Trailer`: the trailer map exists for every request whose HEADERS do not end the
+	// stream, whether a `Trailer` field declared trailers or not (undeclared trailer fields are kept and checked like declared ones)
+	mapWhenOpen, seenAssign := false, false
+	for _, st := range ph.Body.List {
+		switch y := st.(type) {
+		case *ast.IfStmt:
+			if !seenAssign && exprText(y.Cond) == "req.Trailer==nil&&!f.StreamEnded()" && len(y.Body.List) == 1 && y.Else == nil {
+				if a, ok := y.Body.List[0].(*ast.AssignStmt); ok && exprText(a.Lhs[0]) == "req.Trailer" && exprText(a.Rhs[0]) == "make(http.Header)" {
+					mapWhenOpen = true
+				}
+			}
+		case *ast.AssignStmt:
+			if len(y.Lhs) == 1 && exprText(y.Lhs[0]) == "st.reqTrailer" {
+				seenAssign = true
+			}
+		}
+	}
+	s += "/-- MServerConn.processHeaders: the request's trailer map is allocated for every request whose HEADERS do not end the stream (declared or not) -/\n"
+	s += fmt.Sprintf("def srvTrailerMapWhenOpen : Bool := %v\n", mapWhenOpen)
 	return s + footer("C08H2Trailers"), nil
 }
